@@ -12,6 +12,11 @@
 //     the Go runtime (a goroutine blocked on a sync.Mutex is not "durably
 //     blocked" for testing/synctest and would stall the simulation).
 //
+//   - every `go func() { ... }()` body starts with `defer verifGoTop()`: when a
+//     scripted user callback panics on purpose, the panic is allowed to travel
+//     through the library's own frames and is caught only at the top of the
+//     goroutine, where a real process would have died.
+//
 // The insertion is a textual splice at AST-derived offsets, so the rest of the
 // source (comments, line numbers) is untouched. /repo itself is never modified.
 package main
@@ -154,6 +159,12 @@ func instrumentFile(path, base string) ([]byte, int, error) {
 	}
 	ast.Inspect(f, func(n ast.Node) bool {
 		switch t := n.(type) {
+		case *ast.GoStmt:
+			// `go func() { ... }()`: the new goroutine's outermost deferred call is
+			// the simulator's (see verifGoTop in the generated file)
+			if fl, ok := t.Call.Fun.(*ast.FuncLit); ok && fl.Body != nil {
+				sp = append(sp, splice{off(fl.Body.Lbrace) + 1, off(fl.Body.Lbrace) + 1, " defer verifGoTop(); "})
+			}
 		case *ast.BlockStmt:
 			doList(t.List)
 		case *ast.CaseClause:
@@ -185,6 +196,28 @@ func verifLock(try func() bool, lock func(), point string) {
 		return
 	}
 	lock()
+}
+
+// VerifGoTop is consulted by the outermost deferred call of every goroutine the
+// library starts with a function literal. Called with nil it reports whether a
+// panic the simulator itself injected (a user callback that panics) is in
+// flight; only then is the panic value recovered and handed to it. Returning
+// true means: this was the injected panic, it has reached the top of the
+// goroutine - in a real process that is where the program would have died -
+// and the simulated run records that and goes on. Every other panic is
+// untouched (recover is not even called).
+var VerifGoTop func(r any) bool
+
+func verifGoTop() {
+	fn := VerifGoTop
+	if fn == nil || !fn(nil) {
+		return
+	}
+	if r := recover(); r != nil {
+		if !fn(r) {
+			panic(r)
+		}
+	}
 }
 `
 
